@@ -242,7 +242,8 @@ struct Counts {
             }
             v[i].n = 0;
         }
-        if (rest && vf::g().sh) { vf::Json().str("k", "bulk").str("label", "C10-case").num("n", 0).num("distinct", rest).emit(); }
+        // every flavour of a unit executes the same tuples (the ASan quick build a subset): count them once, from the plain build
+        if (rest && vf::g().sh && !VF_ASAN) { vf::Json().str("k", "bulk").str("label", "C10-case").num("n", 0).num("distinct", rest).emit(); }
     }
     ~Counts() { flush(); }
 };
